@@ -725,7 +725,11 @@ class ASTUnaryExpression(ASTExpressionBase):
 
     def source(self, sql_type: SQLType = SQLType.DEFAULT) -> str:
         """返回语法节点的 SQL 源码"""
-        return f"{self.operator.source(sql_type=sql_type)}{self.expression.source(sql_type=sql_type)}"
+        operator_str = self.operator.source(sql_type=sql_type)
+        expression_str = self.expression.source(sql_type=sql_type)
+        if operator_str == "-" and expression_str.startswith("-"):
+            return f"{operator_str} {expression_str}"  # 避免将两个连续的减号输出为单行注释标记 --
+        return f"{operator_str}{expression_str}"
 
 
 @dataclasses.dataclass(slots=True, frozen=True, eq=True)
